@@ -567,7 +567,7 @@ func (s *State) evalBuiltin(node *ast.Builtin) object.Object {
 }
 
 func (s *State) evalIndexRangeExpression(left object.Object, leftIdx, rightIdx ast.Node) object.Object {
-	leftIndex := s.Eval(leftIdx)
+	leftIndex := object.Value(s.Eval(leftIdx)) // the value now: the right bound may change a register (a[i:++i]).
 	nilRight := (rightIdx == nil)
 	var rightIndex object.Object
 	if nilRight {
